@@ -320,3 +320,95 @@ __CPROVER_ensures((!RIO_REFUSED && g_dup_ret != NULL) ==> (g_goi_calls == 1 && g
 __CPROVER_ensures(C14_POST(global_hooks)) /*@C14*/
 __CPROVER_assigns(GHOST_DUP, GHOST_GOI, GHOST_RVP, GHOST_ALLOC, g_free_arg, g_free_calls; replacement != NULL: replacement->string, replacement->type, replacement->next, replacement->prev)
 __CPROVER_frees(replacement != NULL: replacement->string);
+
+/* ================================================================== thin public wrappers (C06: every public edit/query call forwards to the helper proved above)
+ * Callees are replaced by logging callee views; the wrapper's contract states which helper is called with which arguments and that its answer is returned unchanged. */
+struct vf_fwd_ghost { cJSON *dvp_parent, *dvp_item, *dvp_ret; size_t dvp_calls; } g_fwd;
+struct vf_fwr_ghost { cJSON *rio_object, *rio_repl; const char *rio_string; cJSON_bool rio_cs, rio_ret; size_t rio_calls; } g_fwr;
+struct vf_fwp_ghost { cJSON *pub_ret; const void *pub_a; const void *pub_b; size_t pub_calls; } g_fwp;
+#ifdef VF_WRAPPER_VIEWS
+CJSON_PUBLIC(cJSON *) cJSON_DetachItemViaPointer(cJSON *parent, cJSON * const item)
+__CPROVER_ensures(g_fwd.dvp_parent == parent && g_fwd.dvp_item == item && g_fwd.dvp_ret == RET && g_fwd.dvp_calls == __CPROVER_old(g_fwd.dvp_calls) + 1)
+__CPROVER_ensures((parent == NULL || item == NULL) ==> RET == NULL)
+__CPROVER_ensures(RET == NULL || RET == item)
+__CPROVER_assigns(g_fwd);
+static cJSON_bool replace_item_in_object_cv(cJSON *object, const char *string, cJSON *replacement, cJSON_bool case_sensitive)
+__CPROVER_ensures(g_fwr.rio_object == object && g_fwr.rio_string == string && g_fwr.rio_repl == replacement && g_fwr.rio_cs == case_sensitive && g_fwr.rio_ret == RET && g_fwr.rio_calls == __CPROVER_old(g_fwr.rio_calls) + 1 && (RET == 0 || RET == 1))
+__CPROVER_assigns(g_fwr, GHOST_ALLOC);
+/* the public lookups / detach functions as callees of the Delete/Detach wrappers */
+#define PUB_VIEW(fn, params, a, b) \
+CJSON_PUBLIC(cJSON *) fn params \
+__CPROVER_ensures(RET == NULL || __CPROVER_is_fresh(RET, sizeof(cJSON))) \
+__CPROVER_ensures(g_fwp.pub_a == (const void*)(a) && g_fwp.pub_b == (const void*)(b) && g_fwp.pub_ret == RET && g_fwp.pub_calls == __CPROVER_old(g_fwp.pub_calls) + 1) \
+__CPROVER_assigns(g_fwp);
+#ifdef VF_PUBVIEW_GetObjectItem
+PUB_VIEW(cJSON_GetObjectItem, (const cJSON * const object, const char * const string), object, string)
+PUB_VIEW(cJSON_GetObjectItemCaseSensitive, (const cJSON * const object, const char * const string), object, string)
+#endif
+#ifdef VF_PUBVIEW_Detach
+PUB_VIEW(cJSON_DetachItemFromArray, (cJSON *array, int which), array, (size_t)which)
+PUB_VIEW(cJSON_DetachItemFromObject, (cJSON *object, const char *string), object, string)
+PUB_VIEW(cJSON_DetachItemFromObjectCaseSensitive, (cJSON *object, const char *string), object, string)
+#endif
+#endif
+
+CJSON_PUBLIC(cJSON_bool) cJSON_AddItemToArray(cJSON *array, cJSON *item)
+__CPROVER_requires(g_aita_calls == 0 && (array == NULL || __CPROVER_is_fresh(array, sizeof(cJSON))) && (item == NULL || item == array || __CPROVER_is_fresh(item, sizeof(cJSON))))
+__CPROVER_ensures(g_aita_calls == 1 && g_aita_array == array && g_aita_item == item && RET == g_aita_ret) /*@C06*/
+__CPROVER_assigns(GHOST_AITA; array != NULL && item != NULL && array != item: array->child, item->next, item->prev);
+#define AITO_WRAPPER(fn, constkey) \
+CJSON_PUBLIC(cJSON_bool) fn(cJSON *object, const char *string, cJSON *item) \
+__CPROVER_requires(g_aito_calls == 0 && (object == NULL || __CPROVER_is_fresh(object, sizeof(cJSON))) && (item == NULL || item == object || __CPROVER_is_fresh(item, sizeof(cJSON)))) \
+__CPROVER_ensures(g_aito_calls == 1 && g_aito_object == object && g_aito_string == string && g_aito_item == item && g_aito_hooks == &global_hooks && g_aito_const == (constkey) && RET == g_aito_ret) /*@C06 C14*/ \
+__CPROVER_assigns(GHOST_AITO, GHOST_ALLOC; !(object == NULL || string == NULL || item == NULL || object == item): item->string, item->type, item->next, item->prev, object->child);
+AITO_WRAPPER(cJSON_AddItemToObject, 0)
+AITO_WRAPPER(cJSON_AddItemToObjectCS, 1)
+
+CJSON_PUBLIC(cJSON *) cJSON_GetArrayItem(const cJSON *array, int index)
+__CPROVER_requires(g_gai_calls == 0)
+__CPROVER_ensures(index < 0 ? (RET == NULL && g_gai_calls == 0) : (g_gai_calls == 1 && g_gai_array == array && g_gai_index == (size_t)index && RET == g_gai_ret)) /*@C06*/
+__CPROVER_assigns(g_gai_array, g_gai_index, g_gai_calls);
+#ifndef VF_PUBVIEW_GetObjectItem
+#define GOI_WRAPPER(fn, cs) \
+CJSON_PUBLIC(cJSON *) fn(const cJSON * const object, const char * const string) \
+__CPROVER_requires(g_goi_calls == 0 && (string == NULL || STR(string, g_str_n))) \
+__CPROVER_ensures(g_goi_calls == 1 && g_goi_object == object && g_goi_name == string && g_goi_cs == (cs) && RET == g_goi_ret) /*@C06*/ \
+__CPROVER_assigns(GHOST_GOI);
+GOI_WRAPPER(cJSON_GetObjectItem, 0)
+GOI_WRAPPER(cJSON_GetObjectItemCaseSensitive, 1)
+#endif
+#ifndef VF_PUBVIEW_Detach
+CJSON_PUBLIC(cJSON *) cJSON_DetachItemFromArray(cJSON *array, int which)
+__CPROVER_requires(g_gai_calls == 0 && g_fwd.dvp_calls == 0)
+__CPROVER_ensures(which < 0 ? (RET == NULL && g_gai_calls == 0 && g_fwd.dvp_calls == 0) : (g_gai_calls == 1 && g_gai_array == array && g_gai_index == (size_t)which && g_fwd.dvp_calls == 1 && g_fwd.dvp_parent == array && g_fwd.dvp_item == g_gai_ret && RET == g_fwd.dvp_ret)) /*@C06*/
+__CPROVER_assigns(g_gai_array, g_gai_index, g_gai_calls, g_fwd);
+#define DFO_WRAPPER(fn) \
+CJSON_PUBLIC(cJSON *) fn(cJSON *object, const char *string) \
+__CPROVER_requires(g_fwp.pub_calls == 0 && g_fwd.dvp_calls == 0) \
+__CPROVER_ensures(g_fwp.pub_calls == 1 && g_fwp.pub_a == (const void*)object && g_fwp.pub_b == (const void*)string && g_fwd.dvp_calls == 1 && g_fwd.dvp_parent == object && g_fwd.dvp_item == g_fwp.pub_ret && RET == g_fwd.dvp_ret) /*@C06*/ \
+__CPROVER_assigns(g_fwp, g_fwd);
+DFO_WRAPPER(cJSON_DetachItemFromObject)
+DFO_WRAPPER(cJSON_DetachItemFromObjectCaseSensitive)
+#endif
+/* Delete-from-container wrappers: detach through the matching public function, then delete exactly what was detached */
+#define DEL_WRAPPER(fn, params, a, b) \
+CJSON_PUBLIC(void) fn params \
+__CPROVER_requires(g_fwp.pub_calls == 0 && g_del_calls == 0 && HOOKS_OK(global_hooks)) \
+__CPROVER_ensures(g_fwp.pub_calls == 1 && g_fwp.pub_a == (const void*)(a) && g_fwp.pub_b == (const void*)(b) && g_del_calls == 1 && g_del_arg == g_fwp.pub_ret) /*@C06 C07*/ \
+__CPROVER_assigns(g_fwp, GHOST_DEL, GHOST_ALLOC);
+#ifdef VF_PUBVIEW_Detach
+DEL_WRAPPER(cJSON_DeleteItemFromArray, (cJSON *array, int which), array, (size_t)which)
+DEL_WRAPPER(cJSON_DeleteItemFromObject, (cJSON *object, const char *string), object, string)
+DEL_WRAPPER(cJSON_DeleteItemFromObjectCaseSensitive, (cJSON *object, const char *string), object, string)
+#endif
+CJSON_PUBLIC(cJSON_bool) cJSON_ReplaceItemInArray(cJSON *array, int which, cJSON *newitem)
+__CPROVER_requires(g_gai_calls == 0 && g_rvp_calls == 0 && (newitem == NULL || __CPROVER_is_fresh(newitem, sizeof(cJSON))))
+__CPROVER_ensures(which < 0 ? (!RET && g_gai_calls == 0 && g_rvp_calls == 0) : (g_gai_calls == 1 && g_gai_array == array && g_gai_index == (size_t)which && g_rvp_calls == 1 && g_rvp_parent == array && g_rvp_item == g_gai_ret && g_rvp_repl == newitem && RET == g_rvp_ret)) /*@C06*/
+__CPROVER_assigns(g_gai_array, g_gai_index, g_gai_calls, GHOST_RVP, GHOST_ALLOC; newitem != NULL: newitem->next, newitem->prev);
+#define RIO_WRAPPER(fn, cs) \
+CJSON_PUBLIC(cJSON_bool) fn(cJSON *object, const char *string, cJSON *newitem) \
+__CPROVER_requires(g_fwr.rio_calls == 0) \
+__CPROVER_ensures(g_fwr.rio_calls == 1 && g_fwr.rio_object == object && g_fwr.rio_string == string && g_fwr.rio_repl == newitem && g_fwr.rio_cs == (cs) && RET == g_fwr.rio_ret) /*@C06*/ \
+__CPROVER_assigns(g_fwr, GHOST_ALLOC);
+RIO_WRAPPER(cJSON_ReplaceItemInObject, 0)
+RIO_WRAPPER(cJSON_ReplaceItemInObjectCaseSensitive, 1)
